@@ -1,7 +1,7 @@
 (* Executable model of the DAG traversal and query code of bigtree:
      bigtree/utils/iterators.py:522-585   dag_iterator
-     bigtree/node/dagnode.py:362-414      DAGNode.ancestors / descendants / siblings
-     bigtree/node/dagnode.py:511-571      DAGNode.go_to
+     bigtree/node/dagnode.py:364-416      DAGNode.ancestors / descendants / siblings
+     bigtree/node/dagnode.py:513-573      DAGNode.go_to
    A DAG is given purely: node i of the list is the Python object numbered i, with its name, its
    attributes and its `_DAGNode__parents` / `_DAGNode__children` lists *in the order the object holds
    them* (that order is what the iterator output depends on).  No proofs in this file. *)
@@ -74,7 +74,7 @@ Fixpoint dedup_acc (seen : list id) (l : list id) : list id :=
   end.
 Definition dedup (l : list id) : list id := dedup_acc [] l.
 
-(* ancestors (dagnode.py:362-386):
+(* ancestors (dagnode.py:364-388):
      def _recursive_parent(node):
          for _node in node.parents: yield from _recursive_parent(_node); yield _node
      return list(dict.fromkeys(_recursive_parent(self)))          (() when there is no parent) *)
@@ -85,7 +85,7 @@ Fixpoint anc_raw (fuel : nat) (g : dag) (x : id) : list id :=
   end.
 Definition ancestors (g : dag) (x : id) : list id := dedup (anc_raw (dsize g) g x).
 
-(* descendants (dagnode.py:388-398): preorder_iter(self, filter = (_node != self)) then dict.fromkeys;
+(* descendants (dagnode.py:390-400): preorder_iter(self, filter = (_node != self)) then dict.fromkeys;
    preorder_iter (iterators.py:137-145) on a DAGNode: yield tree; for child in children: recurse. *)
 Fixpoint pre_raw (fuel : nat) (g : dag) (x : id) : list id :=
   match fuel with
@@ -95,7 +95,7 @@ Fixpoint pre_raw (fuel : nat) (g : dag) (x : id) : list id :=
 Definition descendants (g : dag) (x : id) : list id :=
   dedup (filter (fun y => negb (Nat.eqb y x)) (pre_raw (dsize g) g x)).
 
-(* siblings (dagnode.py:400-414): () for a root, else
+(* siblings (dagnode.py:402-416): () for a root, else
      tuple(child for parent in self.parents for child in parent.children if child is not self) *)
 Definition siblings (g : dag) (x : id) : list id :=
   match parents g x with
@@ -103,7 +103,7 @@ Definition siblings (g : dag) (x : id) : list id :=
   | ps => flat_map (fun p => filter (fun c => negb (Nat.eqb c x)) (children g p)) ps
   end.
 
-(* go_to (dagnode.py:511-571):
+(* go_to (dagnode.py:513-573):
      if self == node: return [[self]]
      if node not in self.descendants: raise TreeError
      self.__path = []
